@@ -87,7 +87,10 @@ func (g *GettyRemoting) sendAsync(session getty.Session, msg message.RpcMessage,
 		return nil, fmt.Errorf("session is closed")
 	}
 	resp := message.NewMessageFuture(msg)
-	g.futures.Store(msg.ID, resp)
+	if callback != nil {
+		// only a caller that waits for the reply needs (and later removes) a future
+		g.futures.Store(msg.ID, resp)
+	}
 	_, _, err = session.WritePkg(msg, time.Duration(0))
 	if err != nil {
 		g.futures.Delete(msg.ID)
